@@ -1,5 +1,7 @@
 import PqModel.Layout
 import PqModel.ThriftWriteProofs
+import PqModel.FooterLayout
+import PqModel.FileMetaTrees
 
 /-! # C02 — Every written file is well-formed Parquet (layout accounting) -/
 namespace PqModel.Props.C02
@@ -93,5 +95,93 @@ example : writeStruct [({id := 1, required := true}, .i32 5), ({id := 20}, .list
     [0x15, 0x0A, 0x09, 0x28, 0x22, 0x01, 0x00, 0x00] := by decide
 
 end Thrift
+
+
+/-! ## Round 4: the page-index section of the file tail, key-value metadata, created_by, sorting columns -/
+section Tail
+open PqModel.FooterLayout
+
+/-- **Page-index section** (`writeFileFooter`'s two loops, mirror `indexLayout`): for every sequence
+    of column chunks (any number of row groups, with or without column index) written at `start`,
+    the recorded `column_index_offset/length` and `offset_index_offset/length` name exactly the
+    positional regions (prefix sums of the encoded lengths: the column indexes that exist, then
+    the offset indexes), a chunk without column index keeps `0, 0`, and the running offset ends at
+    `start` + all bytes written. -/
+theorem page_index_layout_wf (start : Nat) (ops : List IdxOp) :
+    ciRegions (indexLayout start ops).1 ops = specCi start ops ∧
+    oiRegions (indexLayout start ops).1 = specOi (start + ciBytes ops) ops ∧
+    (indexLayout start ops).1.length = ops.length ∧
+    (indexLayout start ops).2 = start + ciBytes ops + oiBytes ops := by
+  have h1 := writeColumnIndexes_spec start ops
+  have h2 := writeOffsetIndexes_spec (writeColumnIndexes start ops).2 ops (writeColumnIndexes start ops).1 h1.2.1
+  simp only [indexLayout]
+  refine ⟨?_, ?_, h2.2.1, ?_⟩
+  · rw [h2.2.2.2, h1.2.2.1]
+  · rw [h2.2.2.1, h1.1]
+  · rw [h2.1, h1.1]
+
+/-- the regions the footer names tile `[start, end)`: no gap, and (corollary) no two page-index
+    structures overlap and none leaves the section -/
+theorem page_index_tiles (start : Nat) (ops : List IdxOp) :
+    Tiles start (ciRegions (indexLayout start ops).1 ops ++ oiRegions (indexLayout start ops).1) (indexLayout start ops).2 := by
+  have h := page_index_layout_wf start ops
+  rw [h.1, h.2.1, h.2.2.2]
+  have t2 := specOi_tiles (start + ciBytes ops) ops
+  exact Tiles.append (specCi_tiles start ops) t2
+
+theorem page_index_disjoint (start : Nat) (ops : List IdxOp) :
+    (∀ r ∈ ciRegions (indexLayout start ops).1 ops ++ oiRegions (indexLayout start ops).1,
+        start ≤ r.off ∧ r.off + r.len ≤ (indexLayout start ops).2) ∧
+    (ciRegions (indexLayout start ops).1 ops ++ oiRegions (indexLayout start ops).1).Pairwise
+        (fun r s => r.off + r.len ≤ s.off) :=
+  (page_index_tiles start ops).sorted
+
+-- non-vacuity: two row groups' worth of chunks, the second chunk without column index
+example : indexLayout 1000 [⟨some 30, 12⟩, ⟨none, 9⟩, ⟨some 25, 14⟩] =
+    ([{ ciOff := 1000, ciLen := 30, oiOff := 1055, oiLen := 12 }, { oiOff := 1067, oiLen := 9 },
+      { ciOff := 1030, ciLen := 25, oiOff := 1076, oiLen := 14 }], 1090) := by decide
+
+end Tail
+
+section Meta
+open PqModel.Spec PqModel.ThriftWrite PqModel.FileMetaTrees
+
+/-- **Key-value metadata and created_by**: for every footer the writer mirror encodes (any schema
+    and row-group subtrees, any list of key/value byte strings — empty values included, they are
+    written because the Go field is `required` —, any created_by), the spec reader applied to the
+    bytes, at any offset and with arbitrary trailing bytes, yields a tree whose spec views
+    (`key_value_metadata`, field 5; `created_by`, field 6) are exactly the pairs in order and the
+    string (absent iff empty). -/
+theorem key_value_metadata_round_trip (version : Int) (schema : List WVal) (numRows : Int) (rowGroups : List WVal)
+    (kvs : List (List UInt8 × List UInt8)) (kvZero : Bool) (createdBy : List UInt8)
+    (orders : List WVal) (ordersZero : Bool) (pre rest : List UInt8)
+    (hz : kvZero = true → kvs = [])
+    (hw : WfF 0 (footerFields version schema numRows rowGroups kvs kvZero createdBy orders ordersZero) = true) :
+    ∃ t, readStruct ⟨(pre ++ (writeStruct (footerFields version schema numRows rowGroups kvs kvZero createdBy orders ordersZero) ++ rest)).toArray⟩ pre.length =
+        .ok (t, pre.length + (writeStruct (footerFields version schema numRows rowGroups kvs kvZero createdBy orders ordersZero)).length) ∧
+      kvsOf t = kvs.map (fun kv => some (⟨kv.1.toArray⟩, some ⟨kv.2.toArray⟩)) ∧
+      createdByOf t = if createdBy.isEmpty then none else some ⟨createdBy.toArray⟩ :=
+  ⟨_, readStruct_writeStruct _ pre rest hw,
+    kvsOf_footer version schema numRows rowGroups kvs kvZero createdBy orders ordersZero hz,
+    createdByOf_footer version schema numRows rowGroups kvs kvZero createdBy orders ordersZero⟩
+
+example : WfF 0 (footerFields 2 [.struct []] 7 [] [([0x61], []), ([], [0xFF, 0])] false [0x78] [] true) = true := by
+  decide
+
+/-- **Sorting columns of a row group**: the spec view of field 4 of the row group the mirror
+    encodes is the declared list (column index, descending, nulls first), in order. -/
+theorem sorting_columns_round_trip (columns : List WVal) (totalByteSize numRows : Int)
+    (scs : List (Int × Bool × Bool)) (scZero : Bool) (fileOffset totalCompressed ordinal : Int) (pre rest : List UInt8)
+    (hz : scZero = true → scs = [])
+    (hw : WfF 0 (rowGroupFields columns totalByteSize numRows scs scZero fileOffset totalCompressed ordinal) = true) :
+    ∃ t, readStruct ⟨(pre ++ (writeStruct (rowGroupFields columns totalByteSize numRows scs scZero fileOffset totalCompressed ordinal) ++ rest)).toArray⟩ pre.length =
+        .ok (t, pre.length + (writeStruct (rowGroupFields columns totalByteSize numRows scs scZero fileOffset totalCompressed ordinal)).length) ∧
+      sortingOf t = scs.map some :=
+  ⟨_, readStruct_writeStruct _ pre rest hw,
+    sortingOf_rowGroup columns totalByteSize numRows scs scZero fileOffset totalCompressed ordinal hz⟩
+
+example : WfF 0 (rowGroupFields [] 100 3 [(2, true, false), (0, false, true)] false 4 90 0) = true := by decide
+
+end Meta
 
 end PqModel.Props.C02
